@@ -143,17 +143,7 @@ func c04Witnesses(rec *ev.Rec) {
 	})
 }
 
-func keyHasWrapperUnion(f *model.FieldInfo) bool {
-	if !f.Owner.V.Wrapper {
-		return false
-	}
-	for _, kf := range f.KeyFields {
-		if kf.ElemUnion {
-			return true
-		}
-	}
-	return false
-}
+func keyHasWrapperUnion(f *model.FieldInfo) bool { return wrapperUnionKey(f) }
 
 // aliasFinding attributes one difference to the trigger region + signature of a known aliasing finding:
 // the region comes from where the difference sits in the model, the signature from the address-based
@@ -166,7 +156,7 @@ func aliasFinding(it dItem, shared map[string]string) string {
 		return F7BIN
 	case it.F != nil && it.F.Kind == model.FLeafList && it.F.ElemUnion && (shared["ll-wrapper"] != "" || shared["ll-ubin"] != "" || shared["ll-wrapper-bin"] != ""):
 		return F7ULL
-	case it.F != nil && (it.F.Kind == model.FList || it.F.Kind == model.FOrdList) && keyHasWrapperUnion(it.F) && shared["key-pointee"] != "":
+	case it.InWK && shared["key-pointee"] != "":
 		return F7KEY
 	}
 	return ""
@@ -583,7 +573,7 @@ func populate(n *model.Node, f *model.FieldInfo, leafVal model.Val) bool {
 		}
 		return true
 	case model.FList, model.FOrdList:
-		for i := 0; i < 2; i++ {
+		for i := 0; i < 3; i++ {
 			key := make([]model.Val, len(f.KeyFields))
 			for j, kf := range f.KeyFields {
 				val, ok := simpleValK(kf.Type, i, true)
